@@ -64,12 +64,12 @@ Inductive op :=
 
 Inductive act :=
 | AInc (o : nat) (src : option rloc)       (* IncrementRefCount; src = the slot the pointer was read from *)
-| AUnref (l : rloc)                        (* UnrefItem on a slot: clear it, decrement-and-test *)
-| AUncount (l : rloc)                      (* same item, stop counting: decrement WITHOUT release, clear the bit *)
-| AStore (l : rloc) (v : ref)              (* SetPointerAndBits *)
-| AIncSwap (l : rloc) (o : nat) (c : bool) (src : option rloc)
-                                           (* temporary takes (o,c) (increment iff c), then SwapContents with l *)
-| ADec (o : nat)                           (* the temporary's destructor: decrement-and-test *)
+| ADec (o : nat)                           (* DecrementRefCount and test; at zero the release of o starts *)
+| ADecKeep (o : nat)                       (* UnrefItemAux(item, false): decrement, never release *)
+| ATake (l : rloc)                         (* UnrefItem on a slot: the pointer leaves the slot (local), its decrement follows *)
+| AUntag (l : rloc)                        (* same item, stop counting: clear the bit (local), a keep-decrement follows *)
+| AStore (l : rloc) (v : ref)              (* SetPointerAndBits / SwapContents into l; a displaced counting
+                                              pointer (the temporary's content after a swap) is decremented next *)
 | ARel (o n : nat)                         (* releasing o: n member slots already processed *)
 | APoolObt (l : rloc)                      (* ObtainObject critical section, then SetRef into l *)
 | ADrain                                   (* Drain critical section *)
@@ -172,22 +172,25 @@ Definition rloc_eqb (a b : rloc) : bool :=
 
 (* ---------------------------------------------------------------- expansion of operations *)
 
-Definition unref_acts (dst : rloc) (q : ref) : list act :=
-  match q with Some (_, true) => [AUnref dst] | _ => [] end.
+Definition take_acts (dst : rloc) (q : ref) : list act :=
+  match q with Some (_, true) => [ATake dst] | _ => [] end.
+
+(* Reset(): UnrefItem, slot becomes null *)
+Definition reset_acts (dst : rloc) (q : ref) : list act :=
+  match q with Some (_, true) => [ATake dst] | Some (_, false) => [AStore dst None] | None => [] end.
 
 (* ConstRef::SetRef(item, c) on slot [dst] currently holding [q]; repaired order *)
 Definition setref_acts (dst : rloc) (q : ref) (p : option nat) (c : bool) (src : option rloc) : list act :=
   match p with
-  | None => (* SetStatus -> Reset *)
-      match q with Some (_, true) => [AUnref dst] | Some (_, false) => [AStore dst None] | None => [] end
+  | None => reset_acts dst q            (* SetStatus -> Reset *)
   | Some o =>
       if opt_eqb (ptr q) (Some o) then
         match counting q, c with
         | false, true => [AInc o src; AStore dst (Some (o, true))]     (* start counting *)
-        | true, false => [AUncount dst]                                (* stop counting, never releases *)
+        | true, false => [AUntag dst]                                  (* stop counting, never releases *)
         | _, _ => []
         end
-      else (if c then [AInc o src] else []) ++ unref_acts dst q ++ [AStore dst (Some (o, c))]
+      else (if c then [AInc o src] else []) ++ take_acts dst q ++ [AStore dst (Some (o, c))]
   end.
 
 (* the unrepaired order of the switch-items branch: UnrefItem ; store ; RefItem *)
@@ -195,16 +198,16 @@ Definition setref_old_acts (dst : rloc) (q : ref) (p : option nat) (c : bool) (s
   match p with
   | Some o =>
       if opt_eqb (ptr q) (Some o) then setref_acts dst q p c src
-      else unref_acts dst q ++ [AStore dst (Some (o, c))] ++ (if c then [AInc o src] else [])
+      else take_acts dst q ++ [AStore dst (Some (o, c))] ++ (if c then [AInc o src] else [])
   | None => setref_acts dst q p c src
   end.
 
-(* dst = CastAwayConstFromRef(src): a temporary takes (p,c), move assignment swaps, the temporary's
-   destructor unreferences the old content *)
+(* dst = CastAwayConstFromRef(src): a temporary takes (p,c) (increment iff c), move assignment swaps
+   it into dst, the temporary's destructor unreferences the displaced content *)
 Definition castassign_acts (dst : rloc) (q : ref) (p : option nat) (c : bool) (src : option rloc) : list act :=
   match p with
-  | Some o => [AIncSwap dst o c src]
-  | None => match q with Some (_, true) => [AUnref dst] | Some (_, false) => [AStore dst None] | None => [] end
+  | Some o => (if c then [AInc o src] else []) ++ [AStore dst (Some (o, c))]
+  | None => reset_acts dst q
   end.
 
 (* result of the local beginning of an operation: new heap (ONew heap / OSetVal / OSwap write),
@@ -247,7 +250,7 @@ Definition begin_op (K : nat) (h : list obj) (stk : list ref) (o : op)
       end
   | OReset l =>
       match resolve_w h stk l None with
-      | Some (rl, q) => (h, stk, setref_acts rl q None false None, true)
+      | Some (rl, q) => (h, stk, reset_acts rl q, true)
       | None => (h, stk, [], false)
       end
   | OSwap a b =>
@@ -329,58 +332,37 @@ Definition do_act (N K : nat) (h : list obj) (p : pool) (stk : list ref) (a : ac
       | Some h' => (h', stk, rest, p, EvInc o)
       | None => (h, stk, rest, p, EvBad 1)
       end
-  | AUnref l =>
-      match read_slot h stk l with
-      | Some (q, true) =>
-          let '(h1, stk1) := write_slot h stk l None in
-          match dec_obj h1 q with
-          | Some (h2, true) => (h2, stk1, ARel q 0 :: rest, p, EvDec q true)
-          | Some (h2, false) => (h2, stk1, rest, p, EvDec q false)
-          | None => (h1, stk1, rest, p, EvBad 2)
-          end
-      | _ => let '(h1, stk1) := write_slot h stk l None in (h1, stk1, rest, p, EvNone)
-      end
-  | AUncount l =>
-      match read_slot h stk l with
-      | Some (q, true) =>
-          let '(h1, stk1) := write_slot h stk l (Some (q, false)) in
-          match dec_keep h1 q with
-          | Some h2 => (h2, stk1, rest, p, EvDec q false)
-          | None => (h1, stk1, rest, p, EvBad 2)
-          end
-      | _ => (h, stk, rest, p, EvNone)
-      end
-  | AStore l v =>
-      let '(h1, stk1) := write_slot h stk l v in (h1, stk1, rest, p, EvNone)
-  | AIncSwap l o c _ =>
-      match (if c then inc_obj h o else Some h) with
-      | Some h' =>
-          let old := read_slot h' stk l in
-          let '(h1, stk1) := write_slot h' stk l (Some (o, c)) in
-          (h1, stk1, (match old with Some (q, true) => [ADec q] | _ => [] end) ++ rest, p, if c then EvInc o else EvNone)
-      | None => (h, stk, rest, p, EvBad 1)
-      end
   | ADec q =>
       match dec_obj h q with
       | Some (h2, true) => (h2, stk, ARel q 0 :: rest, p, EvDec q true)
       | Some (h2, false) => (h2, stk, rest, p, EvDec q false)
       | None => (h, stk, rest, p, EvBad 2)
       end
+  | ADecKeep q =>
+      match dec_keep h q with
+      | Some h2 => (h2, stk, rest, p, EvDec q false)
+      | None => (h, stk, rest, p, EvBad 2)
+      end
+  | ATake l =>
+      let old := read_slot h stk l in
+      let '(h1, stk1) := write_slot h stk l None in
+      (h1, stk1, (match old with Some (q, true) => [ADec q] | _ => [] end) ++ rest, p, EvNone)
+  | AUntag l =>
+      match read_slot h stk l with
+      | Some (q, true) => let '(h1, stk1) := write_slot h stk l (Some (q, false)) in (h1, stk1, ADecKeep q :: rest, p, EvNone)
+      | _ => (h, stk, rest, p, EvNone)
+      end
+  | AStore l v =>
+      let old := read_slot h stk l in
+      let '(h1, stk1) := write_slot h stk l v in
+      (h1, stk1, (match old with Some (q, true) => [ADec q] | _ => [] end) ++ rest, p, EvNone)
   | ARel o n =>
       let ob := get_obj h o in
       if negb (is_releasing ob) then (h, stk, rest, p, EvBad 4)
       else if n <? length (o_mem ob) then
         let j := rel_index ob n in
-        match nth j (o_mem ob) None with
-        | Some (q, true) =>
-            let h1 := upd h o (set_mem ob (upd (o_mem ob) j None)) in
-            match dec_obj h1 q with
-            | Some (h2, true) => (h2, stk, ARel q 0 :: ARel o (S n) :: rest, p, EvDec q true)
-            | Some (h2, false) => (h2, stk, ARel o (S n) :: rest, p, EvDec q false)
-            | None => (h1, stk, ARel o (S n) :: rest, p, EvBad 2)
-            end
-        | _ => (upd h o (set_mem ob (upd (o_mem ob) j None)), stk, ARel o (S n) :: rest, p, EvNone)
-        end
+        (upd h o (set_mem ob (upd (o_mem ob) j None)), stk,
+         (match nth j (o_mem ob) None with Some (q, true) => [ADec q] | _ => [] end) ++ ARel o (S n) :: rest, p, EvNone)
       else if o_pooled ob then
         (* ReleaseObject: payload reset, SetManager(NULL), critical section *)
         let h1 := upd h o (set_st (set_val ob 0) Pooled) in
